@@ -1391,6 +1391,7 @@ func TestVerifC19(t *testing.T) {
 	c19AnyIntegers(cc)
 	c19StructuredDecode(env.NewCases(res, "structured-documents-no-panic"))
 	c19Deep(env.NewCases(res, "deeply-nested-documents"))
+	c19Whitespace(env.NewCases(res, "whitespace-around-payloads"), t, func(f func()) { synctest.Test(t, func(*testing.T) { f() }) })
 	c19Fuzz(env, res, env.Pick(5, 6))
 	_ = io.EOF
 	env.Finish(res)
